@@ -191,7 +191,7 @@ func refLigatures(best cmap.Subtable) *gtab.Info {
 		repl = append(repl, by[k])
 	}
 	return &gtab.Info{
-		ScriptList:  map[language.Tag]*gtab.Features{language.MustParse("und-Latn-x-latn"): {Optional: []gtab.FeatureIndex{0}}},
+		ScriptList:  map[language.Tag]*gtab.Features{language.MustParse("und-Latn-x-latn"): {Required: 0xFFFF, Optional: []gtab.FeatureIndex{0}}}, // (no required feature: the caller can switch the ligatures off)
 		FeatureList: []*gtab.Feature{{Tag: "liga", Lookups: []gtab.LookupIndex{0}}},
 		LookupList:  []*gtab.LookupTable{{Meta: &gtab.LookupMetaInfo{LookupType: 4}, Subtables: []gtab.Subtable{&gtab.Gsub4_1{Cov: cov, Repl: repl}}}},
 	}
